@@ -45,26 +45,51 @@ func isOptionalKind(k int) bool {
 }
 
 // defineScalar declares option name of the given kind with symbolic defaults.
+// scalarVarForm: declare through the *Var forms, the variable holding something
+// else than the declared default at that moment (set by a harness before defineScalar).
+var scalarVarForm bool
+
 func defineScalar(opt *GetOpt, kind int, name string, fns ...ModifyFn) *scalar {
 	s := &scalar{kind: kind}
 	switch kind {
-	case kString:
+	case kString, kStringOptional:
 		s.ds = vString("def_s_" + name)
+	case kInt, kIntOptional:
+		s.di = vInt("def_i_"+name, math.MinInt64, math.MaxInt64)
+	default:
+		s.df = vFloat("def_f_" + name)
+	}
+	if scalarVarForm {
+		vs, vi, vf := "stale", 99, 9.5
+		switch kind {
+		case kString:
+			opt.StringVar(&vs, name, s.ds, fns...)
+		case kStringOptional:
+			opt.StringVarOptional(&vs, name, s.ds, fns...)
+		case kInt:
+			opt.IntVar(&vi, name, s.di, fns...)
+		case kIntOptional:
+			opt.IntVarOptional(&vi, name, s.di, fns...)
+		case kFloat:
+			opt.Float64Var(&vf, name, s.df, fns...)
+		case kFloatOptional:
+			opt.Float64VarOptional(&vf, name, s.df, fns...)
+		}
+		s.ps, s.pi, s.pf = &vs, &vi, &vf
+		return s
+	}
+	switch kind {
+	case kString:
 		s.ps = opt.String(name, s.ds, fns...)
 	case kStringOptional:
-		s.ds = vString("def_s_" + name)
 		s.ps = opt.StringOptional(name, s.ds, fns...)
 	case kInt:
-		s.di = vInt("def_i_"+name, math.MinInt64, math.MaxInt64)
 		s.pi = opt.Int(name, s.di, fns...)
 	case kIntOptional:
-		s.di = vInt("def_i_"+name, math.MinInt64, math.MaxInt64)
 		s.pi = opt.IntOptional(name, s.di, fns...)
 	case kFloat:
-		s.df = vFloat("def_f_" + name)
 		s.pf = opt.Float64(name, s.df, fns...)
 	case kFloatOptional:
-		s.df = vFloat("def_f_" + name)
 		s.pf = opt.Float64Optional(name, s.df, fns...)
 	}
 	return s
